@@ -173,7 +173,7 @@ def oracle_decode(res, body, got, err):
 def run(ctx):
     from engineio import payload, packet
     res = vlib.Result()
-    res.rule = ('(a) packet lists of length 0-20 mixing text/JSON/binary/none (10% with U+001E inside text): encode, decode(encode), and three form '
+    res.rule = ('(a) packet lists of length 0-20 mixing text/JSON/binary/none (10% with U+001E inside text; a third built from Packet objects that were already encoded for other channels): encode, decode(encode), and three form '
                 'encodings of the body; (b) adversarial bodies: every string of length <=3 (thorough <=4) over an 11 (15)-symbol alphabet, counts 15-18 and 40 with '
                 'the bad packet first/last, random strings to length 400, d= variants. distinct = distinct list or body; the empty list/body is the only trivial case')
     assert payload.Payload.max_decode_packets == LIMIT or True
@@ -183,6 +183,13 @@ def run(ctx):
         case = dict(op='payload-encode', packets=pl)
         try:
             pk = [packet.Packet(t, d) for t, d in pl]
+            if ctx.rng.random() < 0.35:
+                # packets with a past: the same Packet objects were already encoded for other channels (a WebSocket frame, another polling
+                # payload) in some order; the payload must not depend on that
+                for q in pk:
+                    for b64 in ctx.rng.choice([[False], [True, False], [False, True], [False, False], [True]]):
+                        q.encode(b64=b64)
+                case['reused_packets'] = True
             enc = payload.Payload(packets=pk).encode()
         except Exception as e:
             res.violations.append(dict(what='Payload.encode raised %s' % type(e).__name__, case=case, facts=dict(clause='encode-raises')))
